@@ -496,12 +496,31 @@ pub fn start_server(config: &Config, addr: &crate::net::SocketAddr) -> Result<()
             #[cfg(unix)]
             crate::net::SocketAddr::Unix(path) => {
                 trace!("binding unix socket {}", path.display());
-                // Unix socket will report addr in use on any unlink file.
+                // Binding reports "address in use" for any existing file, so a socket left
+                // behind by a dead server has to be unlinked first. A socket that still
+                // accepts connections belongs to a live server and must be left alone
+                // (unlinking it would leave that server running but unreachable); the lock
+                // file serialises servers that are starting together.
+                let mut lock_path = path.clone().into_os_string();
+                lock_path.push(".lock");
+                let lock = std::fs::OpenOptions::new()
+                    .create(true)
+                    .truncate(false)
+                    .write(true)
+                    .open(&lock_path)?;
+                if unsafe { libc::flock(std::os::fd::AsRawFd::as_raw_fd(&lock), libc::LOCK_EX) } != 0 {
+                    return Err(io::Error::last_os_error());
+                }
+                if std::os::unix::net::UnixStream::connect(path).is_ok() {
+                    return Err(io::Error::from(io::ErrorKind::AddrInUse));
+                }
                 let _ = std::fs::remove_file(path);
                 let l = {
                     let _guard = runtime.enter();
                     tokio::net::UnixListener::bind(path)?
                 };
+                // We are listening now: a later starter finds a live socket.
+                drop(lock);
                 let srv =
                     SccacheServer::<_>::with_listener(l, runtime, client, dist_client, storage);
                 Ok((
